@@ -38,21 +38,22 @@ fn in_domain(op: &str, x: f64) -> bool {
     }
 }
 /// independent derivative formulas (deliberately written differently from the crate)
+/// reference derivatives: cancellation-free formulas over libm (the reference must be better conditioned than what it judges)
 fn d_un(op: &str, x: f64) -> f64 {
     match op {
         "abs" => if x > 0.0 { 1.0 } else { -1.0 },
-        "sin" => (x + std::f64::consts::FRAC_PI_2).sin(),
-        "cos" => (x + std::f64::consts::FRAC_PI_2).cos(),
-        "tan" => 1.0 + x.tan() * x.tan(),
+        "sin" => x.cos(),
+        "cos" => -x.sin(),
+        "tan" => 1.0 / (x.cos() * x.cos()),
         "asin" => 1.0 / ((1.0 - x) * (1.0 + x)).sqrt(),
         "acos" => -1.0 / ((1.0 - x) * (1.0 + x)).sqrt(),
         "atan" => 1.0 / (1.0 + x * x),
         "ln" => 1.0 / x,
         "exp" => x.exp(),
         "sqrt" => 0.5 / x.sqrt(),
-        "sinh" => 0.5 * (x.exp() + (-x).exp()),
-        "cosh" => 0.5 * (x.exp() - (-x).exp()),
-        "tanh" => 1.0 - x.tanh() * x.tanh(),
+        "sinh" => x.cosh(),
+        "cosh" => x.sinh(),
+        "tanh" => 1.0 / (x.cosh() * x.cosh()),
         "asinh" => 1.0 / (1.0 + x * x).sqrt(),
         "acosh" => 1.0 / ((x - 1.0) * (x + 1.0)).sqrt(),
         "atanh" => 1.0 / ((1.0 - x) * (1.0 + x)),
@@ -165,7 +166,12 @@ pub fn run_eval(o: &Opts) -> Report {
                 if res0.0.to_bits() != res.0.to_bits() { rep.finding("oracle", &["C05"], "value-depends-on-tangent", input.clone(), String::new()); }
                 // tangent: dx * f'(x)
                 let want = dx * d_un(op, x);
-                if pv.is_finite() && want.is_finite() && !close(res.1, want, 1e-9, 1e-12 * dx.abs()) {
+                // "rounding commensurate with the conditioning": relative 1e-9 of f'(x), plus 1e-13 of |x f''(x)| (the
+                // absolute sensitivity of f' to a relative perturbation of x; this is what remains where f' crosses zero)
+                let h = 1e-4 * x.abs().max(1.0);
+                let d2 = (d_un(op, x + h) - d_un(op, x - h)) / (2.0 * h);
+                let floor = if d2.is_finite() { 1e-13 * (x * d2).abs() * dx.abs() } else { 1e-12 * dx.abs() };
+                if pv.is_finite() && want.is_finite() && !close(res.1, want, 1e-9, floor + 1e-300) {
                     rep.finding("oracle", &["C05"], "wrong-derivative", input.clone(), format!("tangent {:e} expected {:e}", res.1, want));
                 }
             }
